@@ -176,7 +176,9 @@ def grid_runs(m, g, kind, n, exact, seed, pre_tau=None):
     try:
         np.random.seed(seed)
         with pg.quiet(), watchdog():
-            out = m.solve_stochast(grid_value(kind, g), n, exact=exact, full_output=True)
+            # the flag in the forms callers pass it in: a bool, the result of a numpy comparison, 1 / 0
+            flag = [bool, np.bool_, int][int(seed) % 3](exact)
+            out = m.solve_stochast(grid_value(kind, g), n, exact=flag, full_output=True)
     finally:
         del m._jump
     return out, cap
@@ -549,14 +551,15 @@ def run(ck):
         # one run per check with many events of one transition inside a single output interval (several hundred)
         if not many_done and spec["kind"] == "corpus":
             many_done = True
-            for kd, sd in (("list", 1), ("array", 2), ("tuple", 3)):
+            # (738000: a calendar clock -- day numbers; events a fraction of a day apart are far apart in time all the same)
+            for kd, sd, t0 in (("list", 1, 5.0), ("array", 2, 5.0), ("tuple", 3, 5.0), ("array", 4, 738000.0), ("list", 5, 738000.0)):
                 try:
-                    bad = late_start_check(kd, sd)
+                    bad = late_start_check(kd, sd, t0)
                 except SimTimeout:
                     bad = None
-                ck.case(dict(kind="late-start", grid_kind=kd, seed=sd), nontrivial=True)
+                ck.case(dict(kind="late-start", grid_kind=kd, seed=sd, t0=t0), nontrivial=True)
                 if bad:
-                    ck.violation("first-row/late-start", bad, dict(kind="late-start", grid_kind=kd, seed=sd))
+                    ck.violation("first-row/late-start", bad, dict(kind="late-start", grid_kind=kd, seed=sd, t0=t0))
             for sd in (1, 2):
                 try:
                     bad = param_magnitude_check(sd)
@@ -662,7 +665,7 @@ def shrink(case, V, cls):
 def replay(ck, data):
     case = dict(data["input"])
     if case.get("kind") == "late-start":
-        return late_start_check(case["grid_kind"], case["seed"])
+        return late_start_check(case["grid_kind"], case["seed"], case.get("t0", 5.0))
     if case.get("kind") == "param-magnitude":
         return param_magnitude_check(case["seed"])
     m = build(case["spec"])
